@@ -722,3 +722,6 @@ for _p in ("C10", "C17", "C09"):
 PROPS["C09"]["proofs"] = PROPS["C09"]["proofs"] + ["Bmc.Proofs.EndToEnd.WholeC09"]
 PROPS["C09"]["claim"] += (" WHOLE (Proofs/EndToEnd/WholeC09.lean): generated_session_then_history_sequence_numbers — from the session newV2Session AS TRANSLATED returns against the specification's BMC, any history on SendCommand AS TRANSLATED "
                           "sends sequence numbers 1, 2, 3, … in order, all addressed to the session ID the BMC chose.")
+PROPS["C09"]["proofs"] = PROPS["C09"]["proofs"] + ["Bmc.Proofs.EndToEnd.HistoryC09Fail"]
+PROPS["C09"]["claim"] += (" WITH SERIALISATION FAILURES (Proofs/EndToEnd/HistoryC09Fail.lean): generated_history_sequence_numbers_any / generated_history_no_reuse_any — the same history theorems about SendCommand AS TRANSLATED "
+                          "when some commands of the history fail to serialise: such a call consumes no sequence number, the datagrams around it are numbered consecutively.")
